@@ -214,6 +214,44 @@ Definition c05_no_dup (c : config) (t : list event) : bool :=
 
 Definition c05_holdsb (c : config) (t : list event) : bool := c05_shape c t && c05_no_dup c t.
 
+(* no request is lost (lower bound, at quiescent points): requests that are certainly with the manager or were
+   served - ReloadAll() calls that returned, SIGHUP SendSignal calls that returned, triggers offered by a
+   ReloadSender *)
+Definition requests_in (c : config) (t : list event) : nat :=
+  length (filter (fun e => match e with
+                           | ERet _ OpReloadAll | ERet _ (OpSignal SigHup) => true
+                           | ETrigR i => rsender (spec c i)
+                           | _ => false end) t).
+
+(* Run() has started every runnable and passed every readiness gate: it is in reap() (as long as nothing has
+   triggered a shutdown) *)
+Definition in_reap (c : config) (t : list event) : bool :=
+  forallb (fun i => mem_ev (ERunCall i) t && (negb (stateable (spec c i)) || mem_ev (EPoll i true) t)) (seq 0 (nrun c)).
+
+(* the reload events so far are whole passes (with c05_shape: the manager is between two passes) *)
+Definition whole_passes (c : config) (t : list event) : bool :=
+  match length (one_pass c) with
+  | O => true
+  | S m => Nat.eqb (Nat.modulo (length (reload_evs t)) (S m)) 0
+  end.
+
+(* at a quiescent observation, the supervisor running in reap() (no shutdown trigger so far, parent context live),
+   something Reloadable and the manager between two passes: every such request has had a pass of its own *)
+Fixpoint c05_lower_aux (c : config) (pre t : list event) : bool :=
+  match t with
+  | [] => true
+  | e :: t' =>
+    (match e with
+     | EQuiet | ESnap _ =>
+       existsb (is_trigger c) pre || existsb is_stop_ev pre || negb (in_reap c pre)
+       || match reloadables c with [] => true | _ => false end
+       || negb (whole_passes c pre)
+       || Nat.leb (requests_in c pre) (passes_begun c pre)
+     | _ => true
+     end) && c05_lower_aux c (pre ++ [e]) t'
+  end.
+Definition c05_lower (c : config) (t : list event) : bool := c05_lower_aux c [] t.
+
 (* ---------------------------------------------------------------- C06 / C18 (at snapshots) *)
 
 (* the true state of every runnable according to the Emit events *)
@@ -252,16 +290,34 @@ Fixpoint state_at_stopret (i : nat) (t : list event) (acc : st) : st :=
   | _ :: t' => state_at_stopret i t' acc
   end.
 
+(* runnable i's Run was invoked before its Stop() was called (so startRunnable's store of the initial state is
+   older than Shutdown's store of the final one) *)
+Fixpoint called_before_stop (i : nat) (t : list event) (seen : bool) : bool :=
+  match t with
+  | [] => false
+  | ERunCall j :: t' => called_before_stop i t' (seen || Nat.eqb i j)
+  | EStopCall j :: t' => if Nat.eqb i j then seen else called_before_stop i t' seen
+  | _ :: t' => called_before_stop i t' seen
+  end.
+
+(* nobody but Shutdown writes runnable i's map entry after its Stop(): its monitor never obtained the state
+   channel (held, never released), it is not Reloadable, its initial store is older than its Stop() *)
+Definition sole_writer (c : config) (i : nat) (pre : list event) : bool :=
+  held_sub (spec c i) && negb (mem_ev (ESubRel i) pre) && negb (reloadable (spec c i)) && called_before_stop i pre false.
+
 (* after shutdown the map reports the state each runnable had when its Stop() returned - whatever it did
-   afterwards: checked at snapshots taken after Run() returned (shutdown timeout not configured to fire) *)
+   afterwards: checked at snapshots taken after Run() returned.  When the shutdown timeout can fire the wait may
+   have been abandoned: the stores after the wait are then missing and a lagging monitor may have written last, so
+   only the entries with no other writer are checked (they were stored when Stop() returned) *)
 Fixpoint c06_final_aux (c : config) (pre t : list event) : bool :=
   match t with
   | [] => true
   | e :: t' =>
     (match e with
      | ESnap o =>
-       negb (sn_run_returned o) || shutdown_may_fire c ||
+       negb (sn_run_returned o) ||
        forallb (fun i => negb (stateable (spec c i)) || negb (mem_ev (EStopRet i) pre)
+                         || (shutdown_may_fire c && negb (sole_writer c i pre))
                          || opt_st_eqb (nth i (sn_smap o) None) (Some (state_at_stopret i pre 0)))
                (seq 0 (nrun c))
      | _ => true
